@@ -164,11 +164,15 @@ impl<'a, SE: brush_core::ShellExtensions> Highlighter<'a, SE> {
     }
 
     fn highlight_program(&mut self, line: &str, global_offset: usize) {
-        if let Ok(tokens) = brush_parser::tokenize_str_with_options(
+        if let Ok(mut tokens) = brush_parser::tokenize_str_with_options(
             line,
             &(self.shell.parser_options().tokenizer_options()),
         ) {
             let mut saw_command_token = false;
+
+            // The tokenizer yields a here-document's body right after its tag, ahead of the
+            // tokens that follow the tag on the same line; visit the tokens in source order.
+            tokens.sort_by_key(|token| token.location().start.index);
 
             // Tokenizer offsets are *character* indices into `line`; slicing needs bytes.
             // `char_indices()` gives the byte offset of each char, plus a sentinel for the
